@@ -173,7 +173,8 @@ class C09Engine(GenEngineBase):
     def make_case(self, seed, tier="quick"):
         kn = stream(seed, "interp")
         cfg = dict(targets=list(TARGETS) + list(self.extra_targets), n_requests=30 if tier == "quick" else 45, allow_faults=True,
-                   shared=True, debug_levels=DEBUG_LEVELS, generated_programs=0.08 if tier == "quick" else 0.2, deep_stack=0.12)
+                   shared=True, debug_levels=DEBUG_LEVELS, generated_programs=0.08 if tier == "quick" else 0.2, deep_stack=0.12,
+                   env_windows=["clang_absent", "clang_exit1", "clang_killed", "black_unimportable"])
         return {"seed": seed, "hashseed": kn.choice([0, 1, 2, 3, kn.randrange(2**32), kn.randrange(2**32)]),
                 "history": H.gen_history(seed, self.universe, cfg)}
 
@@ -210,6 +211,10 @@ class C09Engine(GenEngineBase):
                 continue
             same_func_only = all(p == k.split(":debug")[0] for p in o["prior"])
             if not same_func_only:
+                continue
+            if o.get("env"):
+                # printed while a formatter fault was active: falling back to unformatted text is designed behaviour
+                stats["texts_printed_inside_a_fault_window_not_compared"] = stats.get("texts_printed_inside_a_fault_window_not_compared", 0) + 1
                 continue
             if o.get("ctx_had_failure"):
                 # an earlier request on this very context failed half-way (injected exception, NotImplementedError,
